@@ -192,6 +192,36 @@ out.append("        _ => unreachable!(),")
 out.append("    }")
 out.append("}")
 out.append("")
+out.append("/// route 1b: `td_display!` on a fixture key (same helper as td_string! but through the Display wrapper)")
+out.append("pub fn call_key_display(key: usize, locale: Locale, v: &Val) -> String {")
+out.append("    match key {")
+for i, (name, text, kind, exp) in enumerate(keys):
+    out.append(f"        {i} => td_display!(locale, {name}, v = {VAL_ARG[kind]}).to_string(),")
+out.append("        _ => unreachable!(),")
+out.append("    }")
+out.append("}")
+out.append("")
+out.append("/// route 1c: number / currency keys fed with an `f64` (IntoFixedDecimal for f64, floating precision)")
+out.append("pub fn call_key_f64(key: usize, locale: Locale, x: f64) -> Option<String> {")
+out.append("    match key {")
+for i, (name, text, kind, exp) in enumerate(keys):
+    if kind in ("num", "cur"):
+        out.append(f"        {i} => Some(td_string!(locale, {name}, v = x).to_string()),")
+out.append("        _ => None,")
+out.append("    }")
+out.append("}")
+out.append("")
+out.append("/// `td_plural!` / `td_plural_ordinal!`: match on the plural category of a count")
+out.append("pub fn call_plural_macro(ordinal: bool, locale: Locale, count: u64) -> &'static str {")
+out.append("    use leptos_i18n::plurals::{td_plural, td_plural_ordinal};")
+out.append("    let c = move || count;")
+out.append("    if ordinal {")
+out.append("        td_plural_ordinal!(locale, count = c, zero => \"zero\", one => \"one\", two => \"two\", few => \"few\", many => \"many\", _ => \"other\")")
+out.append("    } else {")
+out.append("        td_plural!(locale, count = c, zero => \"zero\", one => \"one\", two => \"two\", few => \"few\", many => \"many\", _ => \"other\")")
+out.append("    }")
+out.append("}")
+out.append("")
 out.append("/// plural keys: td_string! with a count (get_plural_rules cache)")
 out.append("pub fn call_plural(ordinal: bool, locale: Locale, count: u64) -> String {")
 out.append("    if ordinal { td_string!(locale, pl_ord, count = count).to_string() } else { td_string!(locale, pl_card, count = count).to_string() }")
